@@ -1502,7 +1502,8 @@ def contents(I, oid, _seen=None):
     return out
 
 
-LOOKUPS = {"get", "get_mut", "remove", "get_key_value", "first", "last", "pop", "index", "get_index", "get_full", "swap_remove", "shift_remove"}
+LOOKUPS = {"get", "get_mut", "remove", "get_key_value", "first", "last", "pop", "index", "get_index", "get_full", "swap_remove", "shift_remove",
+           "find", "nth", "next", "max", "min", "max_by_key", "min_by_key", "take", "peek"}
 
 
 def origin_values(I, v, _seen=None):
